@@ -105,10 +105,10 @@ CLAIMED["C03"] = ("proof",
 
 CLAIMED["C04"] = ("proof",
     "Same envelope model with an explicit Panic outcome at every Go panic site: acceptance implies the four checks (key id, msg_key = SHA1(decrypted header+body)[4..20], "
-    "declared length inside the data, server parity) and the message is exactly the decrypted fields; no panic for any packet and any auth key of at least 136 bytes; an "
+    "declared length inside the data, server parity) and the message is exactly the decrypted fields; no panic for any packet and ANY auth key (a key shorter than 136 bytes, in particular the nil key of a client still exchanging keys, is refused - as the code since f55fe7c); the result of a call is a function of that call alone (C04_history_independent); an "
     "accepted packet carrying the msg_key of a sealed message is that message under an explicit no-collision hypothesis on the two strings involved (partial: 'every altered "
     "packet is refused' needs an idealised hash). Tied to the code by fault enumeration on valid packets (every bit flip of short packets, every truncation, garbage under the "
-    "right key id, hostile declared lengths re-sealed with the key) with outcome classes compared against the extracted model.",
+    "right key id, hostile declared lengths re-sealed with the key incl. lengths congruent mod 2^8/2^16/2^24, packets re-sealed under a wrong msg_key, cancelling multi-byte alterations of key id and msg_key, short and nil keys, call sequences keeping earlier results) with outcome classes compared against the extracted model.",
     "DESIGN.md section 8 (C04)",
     "Trusted: as C03. MTProto 1.0 does not authenticate padding: a flip that only garbles plaintext padding is accepted with the identical message (counted in the evidence).",
     "machine-checked proof in Coq + fault-enumeration correspondence")
@@ -164,9 +164,9 @@ CLAIMED["C09"] = ("proof",
 
 CLAIMED["C10"] = ("proof",
     "Same transition system: along the wire log msg_ids are multiples of 4 and strictly increasing in write order, content-related messages carry odd seq_no and pure acknowledgements "
-    "even ones, seq_no never decreases (below 2^30 messages), and every received content-related message, alone or inside a container, is followed by a msgs_ack naming it - as "
+    "even ones, seq_no never decreases (below 2^30 messages), and every received content-related message, alone or inside a container, is followed by a msgs_ack naming it - also when processing the message failed (no side condition since fix 95e782e); the id generator yields a larger id for EVERY clock sequence (C10_id_generator); the parity of a seq_no is the low bit of its 32-bit pattern - as "
     "invariants proved for one step and lifted over arbitrary label lists. Tied to the code as C09 (traces replayed through the extracted step; direct oracles for id order, "
-    "divisibility, clock window, parity, monotonicity, missing acks).",
+    "divisibility, clock window, parity, monotonicity, missing acks; clock regimes incl. a clock behind the last id, lock probes, the write as a step boundary, server ids and seq_nos over the full 64/32-bit range).",
     "DESIGN.md section 8 (C09-C11, C16)",
     "Trusted: as C09. 'Derived from the current time' is checked by the harness's clock-window oracle; in the model the clock reading is an arbitrary label parameter.",
     "machine-checked invariants in Coq over all interleavings + trace validation of the real client")
